@@ -450,8 +450,28 @@ def consumed(ctx):
     for r in enum_regions(b, DS):
         for v in r.variants:
             if v == 'DecompressedOnConstruction':
-                # snappy: the whole compressed block was read (and size-checked) at construction
-                ctx.ob('CONSUMED', v, True, short_loc(b.span), 'snappy: block consumed at construction (read_slice(block_size - 4) + 4-byte CRC): see C17/SNAPPY', nontrivial=False)
+                # snappy: the COMPRESSED block was read (and size-checked) at construction - but whether the objects read
+                # out of the decompressed buffer used all of it is only known here: a block that announces fewer objects
+                # than it holds must be an error like under every other codec (this arm used to be waved through: F35)
+                pos = [(bb, b.term(bb)) for bb in sorted(r.blocks) if b.term(bb)['k'] == 'call' and not b.is_cleanup(bb) and strip_generics(cname(b.term(bb))).endswith('Cursor::position')]
+                okc = False
+                for bb in sorted(r.blocks):
+                    if b.term(bb)['k'] != 'switch' or b.is_cleanup(bb):
+                        continue
+                    si = b.switch_info(bb)
+                    if si.get('kind') == 'enum':
+                        continue
+                    cond = switch_condition(b, si)
+                    while cond[0] == 'not':
+                        cond = cond[1]
+                    if cond[0] != 'cmp':
+                        continue
+                    lo, ro = origin(b, cond[2]), origin(b, cond[3])
+                    if any(c is t for c in lo.calls + ro.calls for _, t in pos) and ('len' in lo.flags or 'len' in ro.flags):
+                        errs = [s_ for s_ in b.succs(bb) if all_paths_err(b, s_)]
+                        okc = okc or len(errs) == 1
+                ctx.ob('CONSUMED', v, bool(pos) and okc, short_loc(b.span),
+                       'snappy: the position reached in the decompressed buffer is compared with its length and a difference returns Err: %s' % (bool(pos) and okc))
                 continue
             la = [(bb, b.term(bb)) for bb in sorted(r.blocks) if b.term(bb)['k'] == 'call' and (b.term(bb).get('callee') or '').endswith('IntoLeftAfterTake::into_left_after_take')]
             ok = len(la) == 1
